@@ -85,8 +85,30 @@ theorem suppress_complete (mine other : Record) (h : mine.sameRecord other = tru
     (cache-flush bit clear) and whose half-life has not passed: `now ≤ created + 500·ttl`. -/
 theorem known_iff (c : Cache) (name : BList) (ty now : Nat) (e : Entry) :
     e ∈ knownAnswers c name ty now ↔
+      e ∈ entriesFor c name ty ∧ e.record.flush = false ∧ now ≤ e.record.created + 500 * e.record.ttl ∧
+        1000 * e.record.ttl ≤ 2 * (e.record.expires - now) := by
+  simp only [knownAnswers, List.mem_filter, isUnique, Bool.and_eq_true, Bool.not_eq_true', halflifePassed_eq_false_iff,
+    decide_eq_true_eq, ge_iff_le, and_assoc]
+
+/-- **Never one with less than half of its lifetime left** - also when the end of the record's
+    life was brought forward (a cache flush by a same-name record, `verify`): a listed record
+    really lives for at least half its TTL from `now` on, `now + 500·ttl ≤ expires`.
+    (Before the repair of C10-F1 only `created + ttl` was looked at.) -/
+theorem known_half_really_left (c : Cache) (name : BList) (ty now : Nat) (e : Entry)
+    (h : e ∈ knownAnswers c name ty now) (hpos : 0 < e.record.ttl) : now + 500 * e.record.ttl ≤ e.record.expires := by
+  have := ((known_iff c name ty now e).mp h).2.2.2
+  omega
+
+/-- For a record whose end was never touched (`expires = created + 1000·ttl`) the new condition
+    is the half-life condition: nothing changed for ordinary records. -/
+theorem known_iff_untouched (c : Cache) (name : BList) (ty now : Nat) (e : Entry)
+    (hexp : e.record.expires = e.record.created + 1000 * e.record.ttl) :
+    e ∈ knownAnswers c name ty now ↔
       e ∈ entriesFor c name ty ∧ e.record.flush = false ∧ now ≤ e.record.created + 500 * e.record.ttl := by
-  simp only [knownAnswers, List.mem_filter, isUnique, Bool.and_eq_true, Bool.not_eq_true', halflifePassed_eq_false_iff]
+  rw [known_iff, hexp]
+  constructor
+  · rintro ⟨a, b, c', _⟩; exact ⟨a, b, c'⟩
+  · rintro ⟨a, b, c'⟩; exact ⟨a, b, c', by omega⟩
 
 /-- which entries a question looks at -/
 theorem entriesFor_cases (c : Cache) (name : BList) (ty : Nat) :
@@ -127,7 +149,7 @@ theorem written_ttl (r : Record) (now : Nat) (hc : r.created ≤ now) (hhalf : n
 /-- Every listed known answer can be written: no panic for any entry `get_known_answers` returns. -/
 theorem known_written (c : Cache) (name : BList) (ty now : Nat) (e : Entry) (h : e ∈ knownAnswers c name ty now)
     (hc : e.record.created ≤ now) (h32 : e.record.ttl < 4294967296) : e.record.updateTtl now ≠ .panic := by
-  obtain ⟨r', hr, _⟩ := written_ttl e.record now hc ((known_iff c name ty now e).mp h).2.2 h32
+  obtain ⟨r', hr, _⟩ := written_ttl e.record now hc ((known_iff c name ty now e).mp h).2.2.1 h32
   rw [hr]
   intro h; cases h
 
@@ -160,6 +182,12 @@ def cache1 : Cache := { ptr := [([0x74], [⟨ptrRec, [0x65], 2⟩, ⟨uniqueRec,
 /-- a shared PTR is listed until its half-life (2 250 000 ms after creation), the unique one never -/
 example : (knownAnswers cache1 [0x74] 12 2251000).map (·.record.rdata) = [.ptr [0x69]] := by decide
 example : knownAnswers cache1 [0x74] 12 2251001 = [] := by decide
+/-- C10-F1 regression: the same PTR, its end brought forward to 4 000 (flushed at 3 000): at 3 500
+    it is 2.5 s old, far from its half-life - and not listed any more -/
+def flushedPtr : Record := { ptrRec with expires := 4000 }
+def cache2 : Cache := { ptr := [([0x74], [⟨flushedPtr, [0x65], 2⟩])] }
+example : knownAnswers cache2 [0x74] 12 3500 = [] := by decide
+example : flushedPtr.halflifePassed 3500 = false := by decide
 /-- written TTL one and a half seconds after creation: 4499 -/
 example : ptrRec.updateTtl 2500 = .ok { ptrRec with ttl := 4499 } := by decide
 example : ptrRec.updateTtl 4502000 = .panic := by decide
